@@ -862,7 +862,34 @@ func c16Mutate(r *Rand, s string) string {
 	return string(b)
 }
 
+// c16Costly: words with 16+ digit numbers mostly end in the limit error after 16384 yielded words
+// (tens of milliseconds in Go and in the Lean model); they are thinned out, not excluded.
+func c16Costly(s string) bool {
+	run := 0
+	for i := 0; i < len(s); i++ {
+		if '0' <= s[i] && s[i] <= '9' {
+			run++
+			if run >= 16 {
+				return true
+			}
+		} else {
+			run = 0
+		}
+	}
+	return false
+}
+
 func c16Random(r *Rand) (string, string) {
+	for {
+		s, src := c16Random1(r)
+		if c16Costly(s) && !r.Chance(15) {
+			continue
+		}
+		return s, src
+	}
+}
+
+func c16Random1(r *Rand) (string, string) {
 	switch k := r.Intn(20); {
 	case k < 5:
 		n := 5 + r.Intn(8)
@@ -958,6 +985,18 @@ func c16(c *Ctx) {
 			ws[k-lo] = items[bashIdx[k]].s
 		}
 		out, ok := c16BashBatch(c, ws)
+		if !ok { // retry in small pieces so that one slow word does not lose the whole batch
+			out = make([][]string, len(ws))
+			ok = true
+			for k := 0; k < len(ws); k += 20 {
+				part, pok := c16BashBatch(c, ws[k:min(k+20, len(ws))])
+				if !pok {
+					ok = false
+					break
+				}
+				copy(out[k:], part)
+			}
+		}
 		return bres{out, ok}
 	})
 	for b, r := range results {
